@@ -160,6 +160,11 @@ def _run(prop, tier, seed, meta, run_dir, t_start):
     except Exception as e:
         print("MACHINERY-ERROR fsm extraction: %s" % e)
         return 2
+    for pkg in ir.packages:
+        try:
+            eng.ensure_init(pkg)
+        except Exception:
+            pass
     nproc = min(16, max(1, len(idxs)))
     if nproc > 1:
         ctx = mp.get_context("fork")
